@@ -100,7 +100,7 @@ class Analyzer:
         tix = self.b.locals[root]["t"]
         for el in pj.get("p", ()):
             if el == "*":
-                if True:
+                if steps or root not in self.multidef:
                     v = st.sym.get((root, steps))
                     if v is not None and v[0] == "ref" and v[1] is not None:
                         root, steps = v[1], v[2]
@@ -190,7 +190,46 @@ class Analyzer:
         return self.place_type(op.get("copy") or op.get("move"))
 
     def eval_op(self, st, op):
-        """-> (value, type index)"""
+        """-> (value, type index); composite arithmetic results are reduced to their interval"""
+        v, t = self.eval_op_raw(st, op)
+        if v[0] == "pending":
+            v = v[1]
+        if v[0] in ("sum", "diff", "rem"):
+            v = v[1]
+        return v, t
+
+    def promoted_range(self, pid):
+        """(lo, hi) of a promoted `a..=b` / `a..b` constant, hi inclusive-or-exclusive as written"""
+        if pid in self._promoted_cache:
+            return self._promoted_cache[pid]
+        out = None
+        b = self.f.bodies.get(pid)
+        if b is not None:
+            for _, t in b.calls():
+                if (t["callee"].get("resolved") or "").endswith("RangeInclusive::<Idx>::new"):
+                    a = [x.get("const", {}).get("val") for x in t["args"]]
+                    if len(a) == 2 and None not in a:
+                        out = (a[0], a[1])
+            for _, _, s in b.stmts():
+                if s["k"] == "assign" and s["rv"]["k"] == "agg" and s["rv"].get("adt") in ("std::ops::Range", "std::ops::RangeInclusive"):
+                    a = [x.get("const", {}).get("val") for x in s["rv"]["ops"]]
+                    if len(a) >= 2 and None not in a[:2]:
+                        out = (a[0], a[1])
+        self._promoted_cache[pid] = out
+        return out
+
+    def promoted_value(self, st, pid):
+        b = self.f.bodies.get(pid)
+        if b is None:
+            return None
+        ty = self.T[b.locals[0]["t"]]
+        if ty["k"] == "ref":
+            e = self.T[ty["e"]]
+            if e["k"] == "array" and e.get("len") is not None:
+                return ("n", None, e["len"])
+        return None
+
+    def eval_op_raw(self, st, op):
         if "const" in op:
             c = op["const"]
             tix = c["ty"]
@@ -199,7 +238,7 @@ class Analyzer:
             if "static" in c:
                 return ("ref", "static:" + c["static"], ()), tix
             if "promoted" in c and "def" in c:
-                return ("promoted", "%s::{promoted#%d}" % (c["def"], c["promoted"])), tix
+                return ("ref", "promoted:%s::{promoted#%d}" % (c["def"], c["promoted"]), ()), tix
             if "def" in c:
                 r = self.f.consts.get(c["def"])
                 if r is not None and "val" in r:
@@ -243,6 +282,9 @@ class Analyzer:
             self.shift(st, v[1], v[2])
             return
         st.kill(place, whole_local=whole)
+        if whole and root in self.multidef and v[0] == "ref" and v[1] is not None and (v[1], v[2]) != (root, ("*",)):
+            st.copy_facts((v[1], v[2]), (root, ("*",)))
+            return
         self.store(st, place, tix, v)
 
     def store(self, st, place, tix, v):
@@ -273,7 +315,7 @@ class Analyzer:
             if i != FULL and not iv_empty(i):
                 st.iv[t] = i
             return
-        if v[0] in ("ref", "b", "opt", "iter", "rng", "promoted", "constdef", "strlit"):
+        if v[0] in ("ref", "b", "opt", "iter", "rng", "promoted", "constdef", "strlit", "discr", "pending"):
             st.sym[place] = v
 
     def stable_prefix(self, st, pj):
@@ -361,6 +403,11 @@ class Analyzer:
         if op in ("Eq", "Ne", "Lt", "Le", "Gt", "Ge"):
             if a[0] in ("n", "iv") and b[0] in ("n", "iv"):
                 return ("b", ("cmp", op, a, b))
+            if op in ("Eq", "Ne"):
+                for x, y in ((a, b), (b, a)):
+                    if x[0] == "b" and y[0] == "n" and y[1] is None and y[2] in (0, 1):
+                        same = (y[2] == 1) == (op == "Eq")
+                        return ("b", x[1] if same else ("not", x[1]))
             return ("b", ("unknown",))
         checked = op.endswith("O")
         if checked:
@@ -723,7 +770,10 @@ class Analyzer:
     def rvalue(self, st, rv, dest):
         k = rv["k"]
         if k == "use":
-            return self.eval_op(st, rv["a"])
+            v, t = self.eval_op_raw(st, rv["a"])
+            if v[0] == "pending":
+                v = v[1]
+            return v, t
         if k == "bin":
             a, ta = self.eval_op(st, rv["a"])
             b, tb = self.eval_op(st, rv["b"])
@@ -851,6 +901,9 @@ class Analyzer:
         self.b = body
         self.res = Result(body)
         self.eb = None
+        # reference-typed locals with several definitions (loop-carried slices, re-bound `&mut` cursors) are places
+        # of their own: `(*l)` is not resolved through whatever they pointed to in one particular iteration
+        self.multidef = {l for l, ds in body.defs.items() if len(ds) > 1 or (l <= body.argc and ds)}
         self.collect = False
         n = body.nblocks
         rpo = body.rpo
